@@ -9,6 +9,7 @@ import Holpy.C12.Edits
 import Holpy.C12.Hist
 import Holpy.C12.Users
 import Holpy.C12.UsersIso
+import Holpy.C12.UsersSpec
 /-
 C12 — property theorems (statements live here, helper lemmas in Proofs / Exec / Exec2 / Complete / Reread / Edits / Hist).
 
@@ -66,7 +67,7 @@ theorem load_returns_spec (W : World) (names : List Name) (files : Name → File
     r.1 = none → ∀ k, specLoad W s.lib k n lim ≠ .error .fuel → specLoad W s.lib k n lim = .ok (r.2.thy.getD []) := by
   intro s r hr k hk
   obtain ⟨U, hi⟩ := hist_inv W names files fuel h hh
-  exact (exec_post W s.lib U none fuel (.load n lim) _ hi).2.2 rfl hr k hk
+  exact exec_load_ok W s.lib U fuel n lim _ hi hr k hk
 
 example :
     let s := run exWorld 50 exHistory (initState [1, 2, 3] exFiles)
@@ -415,25 +416,24 @@ example :
 theorem focus_thy (s : State) (u : Nat) : (s.focus u).thy = s.thy := by
   unfold State.focus; split <;> rfl
 
-/-- Import resolution for a user: `load_theory(n, limit, username=u)` is the loader run on the library and cache of
-    user `u` ALONE (imports are looked up in `users/<u>/` only — the code has no fall-back to, or shadowing of, the
-    master library), so a normal return carries the specification evaluated on u's own files.
-    PARTIAL: proved for worlds without lazy imports (`lazyOf = none`).  With lazy imports a user's load can run
-    master loads through the `basic.load_theory` calls of imported modules (modelled in `execU`; `users_isolated`
-    shows that these never touch a third user; that the user's own result is still the specification then, and the
-    history-level statement for several users, are tied to the implementation by the second-user histories of the
-    harness only). -/
-theorem user_resolution_spec_partial (W : World) (hlazy : ∀ n, W.lazyOf n = none) (L : Lib) (U : Used) (s : State)
+/-- Import resolution for a user, WITH lazy imports: `load_theory(n, limit, username=u)` is the loader run on the
+    library and cache of user `u` (imports are looked up in `users/<u>/` only — the code has no fall-back to, or
+    shadowing of, the master library); the `basic.load_theory` calls of lazily imported modules work on master's library
+    and never disturb u's.  So whenever the cache invariant holds for u's own library (`Inv` of the state focused on
+    `u`; nothing is assumed about the other users), a normal return carries the specification evaluated on u's own
+    files.  Holds for every user, master included, and from every focus. -/
+theorem user_resolution_spec (W : World) (L : Lib) (U : Used) (s : State)
     (u : Nat) (hi : Inv W L U (s.focus u)) (f : Nat) (n : Name) (lim : Limit) :
     let r := execU W none (f + 1) (.load u n lim) s
     r.1 = none → ∀ k, specLoad W L k n lim ≠ .error .fuel → specLoad W L k n lim = .ok (r.2.thy.getD []) := by
   intro r hr k hk
-  have heq := execU_load_eq W none hlazy f u n lim s
-  have h1 : r.1 = (exec W none (f + 1) (.load n lim) (s.focus u)).1 := by show (execU W none (f + 1) (.load u n lim) s).1 = _; rw [heq]
-  have h2 : r.2.thy = (exec W none (f + 1) (.load n lim) (s.focus u)).2.thy := by
-    show (execU W none (f + 1) (.load u n lim) s).2.thy = _; rw [heq]; exact focus_thy _ _
+  have hbody := (loadBody_post W L U (execU_recOk W L U none f) n lim hi).2.2
+  have h1 : r.1 = (loadBody W (fun c st => execU W none f c.toU st) n lim (s.focus u)).1 := by
+    show (execU W none (f + 1) (.load u n lim) s).1 = _; rw [execU]
+  have h2 : r.2.thy = (loadBody W (fun c st => execU W none f c.toU st) n lim (s.focus u)).2.thy := by
+    show (execU W none (f + 1) (.load u n lim) s).2.thy = _; rw [execU]; exact focus_thy _ _
   rw [h2]
-  exact (exec_post W L U none (f + 1) (.load n lim) _ hi).2.2 rfl (by rw [← h1]; exact hr) k hk
+  exact hbody (by rw [← h1]; exact hr) k hk
 
 /-- master has theories 1 ← 2 with items 10 / 20; user 1 has its own files for the same names: items 110 / 120 -/
 def uState : State :=
@@ -443,9 +443,19 @@ def uState : State :=
 
 example :
     (execU siWorld none 50 (.load 1 2 .none) uState).2.thy = some [110, 120]
-    ∧ (execU siWorld none 50 (.load 0 2 .none) (execU siWorld none 50 (.load 1 2 .none) uState).2).2.thy = some [10, 20]
-    ∧ specLoad siWorld (uState.focus 1).lib 5 2 .none = .ok [110, 120] :=
-  ⟨by decide, by decide, by rfl⟩
+    ∧ (execU siWorld none 50 (.load 0 2 .none) (execU siWorld none 50 (.load 1 2 .none) uState).2).2.thy = some [10, 20] :=
+  ⟨by decide, by decide⟩
+
+/-- the same library as `uState`, but theory 2 lazily imports module 7 whose body calls `load_theory(1)` — on master -/
+def lzWorld : World := { siWorld with lazyOf := fun n => if n = 2 then some 7 else none, body := fun m => if m = 7 then [.load 1] else [] }
+
+example :
+    (execU lzWorld none 50 (.load 1 2 .none) uState).2.thy = some [110, 120]
+    ∧ specLoad lzWorld (uState.focus 1).lib 5 2 .none = .ok [110, 120]
+    -- the lazy import ran a master load: master's theory 1 is now cached, user 1's result is still its own
+    ∧ (execU lzWorld none 50 (.load 1 2 .none) uState).2.imported 7 = true
+    ∧ ((execU lzWorld none 50 (.load 1 2 .none) uState).2.entry 1).isSome = true :=
+  ⟨by decide, by rfl, by decide, by decide⟩
 
 /-- Users are isolated.  (i) A `load_theory(..., username=B)` — with everything it triggers: lazily imported modules
     and the master loads those modules make — never changes the library or the cache of any user `A` other than `B`
